@@ -1,5 +1,5 @@
 (* C12/Run.v — evaluation of the model on harness cases (correspondence + spec oracle). *)
-From Relic Require Import Base.Prelude Base.Enc Base.Val Generated.C12_gen C12.Model.
+From Relic Require Import Base.Prelude Base.Enc Base.Val Generated.C12_gen C12.Model C12.FsModel.
 
 Definition hdr (p : patch) : Z * Z * Z := (p_off p, p_old p, p_new p).
 Definition hdr_eqb (a b : Z * Z * Z) : bool :=
@@ -81,8 +81,39 @@ Definition check_headers (v : val) : list Z :=
   (if list_eqb hdr_eqb (map hdr ps) obs then [] else [1]) ++
   (if list_eqb hdr_eqb (merge_runs obs) (merge_runs (map (fun c => (c_off c, c_old c, zlen (c_blob c))) cs)) then [] else [7]).
 
-(* entry point: [0 case] or [1 hdrcase] *)
+(* ------------------------------------------------------------------ histories (C12/FsModel.v)
+   input  [ops patches outpath]   ops: [tag a b n], tag 1 create 2 write 3 unlink 4 link 5 rename 6 mkdir 7 symlink 8 open 9 seek 10 open read-only
+   output [status chose_inplace in_domain spec_inplace_allowed handle_bytes_before spec_bytes effective_outpath
+           listing_after handle_bytes_after]   listing: [name kind bytes is_handle_inode nlink] per directory entry *)
+Definition vop (v : val) : op :=
+  let t := vz (vnth 0 v) in let a := vb (vnth 1 v) in let b := vb (vnth 2 v) in let n := vz (vnth 3 v) in
+  if t =? 1 then OCreate a b else if t =? 2 then OWrite a b else if t =? 3 then OUnlink a else
+  if t =? 4 then OLink a b else if t =? 5 then ORename a b else if t =? 6 then OMkdir a else
+  if t =? 7 then OSymlink a else if t =? 8 then OOpen a else if t =? 10 then OOpenRO a else OSeek n.
+Definition vpatch (v : val) : patch := mkPatch (vz (vnth 0 v)) (vz (vnth 1 v)) (vb (vnth 2 v)).
+Definition status_fs (r : result fs) : Z := match r with Ok _ => 0 | Err e => e | Panic _ => 99 end.
+Definition listing (s : fs) (hi : Z) : val :=
+  VL (map (fun e => VL [VB (fst e); VZ (kind_of s (snd e)); VB (data_of s (snd e)); of_bool (snd e =? hi);
+                        VZ (nlink_of (snd e) (f_names s))]) (f_names s)).
+Definition run_history_case (v : val) : val :=
+  let hist := map vop (vl (vnth 0 v)) in
+  let ps := map vpatch (vl (vnth 1 v)) in
+  let outpath := vb (vnth 2 v) in
+  let s := run_history hist fs0 in
+  match f_handle s with
+  | None => VL [VZ E_NOHANDLE]
+  | Some h =>
+      let file := data_of s (h_ino h) in
+      let r := apply_fs ps outpath s in
+      let s' := match r with Ok x => x | _ => s end in
+      VL [VZ (status_fs r); of_bool (chose_inplace ps outpath s); of_bool (asc_disjoint 0 ps (zlen file));
+          of_bool (spec_inplace_allowed outpath s); VB file; VB (splice ps file);
+          VB (canon (spec_outpath outpath (h_name h))); listing s' (h_ino h); VB (data_of s' (h_ino h))]
+  end.
+
+(* entry point: [0 case], [1 hdrcase] or [2 histcase] *)
 Definition run (v : val) : val :=
   if vz (vnth 0 v) =? 0 then
     let '(codes, dom) := check_case (vnth 1 v) in VL [VZs codes; of_bool dom]
+  else if vz (vnth 0 v) =? 2 then run_history_case (vnth 1 v)
   else VL [VZs (check_headers (vnth 1 v)); VZ 0].
